@@ -801,15 +801,27 @@ def install_std_stubs(E):
             return ('forks', E.fork_arg(st, fr, I, args, 0, 'allocation size'))
         if A[0] > (1 << 32): E.throw(st, 0, E.gaddr_of(st, '@_ZTISt9bad_alloc')); return 'handled'
         return E.alloc(st, A[0], 'heap')
-    def delete(E, st, fr, I, A):
-        p = A[0]
-        if p == 0: return None
-        if p not in st.allocs or st.allocs[p][1] != 'heap': raise Violation('memory', 'delete/free of non-heap or interior pointer %#x' % p)
-        if p in st.freed: raise Violation('memory', 'double free %#x' % p)
-        st.freed.add(p)
-        return None
-    for n in ('_Znwm', '_Znam', 'malloc'): S[n] = new
-    for n in ('_ZdlPv', '_ZdaPv', '_ZdlPvm', 'free'): S[n] = delete
+    def mk_delete(kind, what):
+        def delete(E, st, fr, I, A):
+            p = A[0]
+            if is_sym(p): raise Unsupported('symbolic pointer passed to ' + what)
+            if p == 0: return None
+            info = st.allocs.get(p)
+            if info is None or info[1] not in ('heap', 'malloc'): raise Violation('memory', '%s of non-heap or interior pointer %#x' % (what, p))
+            if info[1] != kind: raise Violation('memory', 'mismatched deallocation: %s of memory obtained from %s' % (what, 'malloc/strdup' if info[1] == 'malloc' else 'operator new'))
+            if p in st.freed: raise Violation('memory', 'double free %#x' % p)
+            st.freed.add(p)
+            return None
+        return delete
+    def malloc(E, st, fr, I, A):
+        if is_sym(A[0]):
+            args = [(at, av, info) for (at, av, info) in I['args'] if av is not None]
+            return ('forks', E.fork_arg(st, fr, I, args, 0, 'allocation size'))
+        a = E.alloc(st, A[0], 'heap'); st.allocs[a] = (st.allocs[a][0], 'malloc'); return a
+    for n in ('_Znwm', '_Znam'): S[n] = new
+    S['malloc'] = malloc
+    for n in ('_ZdlPv', '_ZdaPv', '_ZdlPvm'): S[n] = mk_delete('heap', 'operator delete')
+    S['free'] = mk_delete('malloc', 'free')
     def realloc(E, st, fr, I, A):
         old, n = A
         a = E.alloc(st, n, 'heap')
@@ -818,6 +830,7 @@ def install_std_stubs(E):
             for i in range(min(osz, n)):
                 if old + i in st.mem: st.mem[a + i] = st.mem[old + i]
             st.freed.add(old)
+        st.allocs[a] = (st.allocs[a][0], 'malloc')
         return a
     S['realloc'] = realloc
     def cxa_alloc_exc(E, st, fr, I, A): return E.alloc(st, A[0], 'heap')
@@ -993,6 +1006,12 @@ def install_string_stubs(E):
             if is_sym(b) and E.feasible(st, b == 0): raise Unsupported('C string with symbolic byte that may be NUL')
             out.append(b)
     E.cstr = cstr
+    def str_from_cstr(E, st, fr, I, A):
+        E.store(st, A[0], 8, A[0] + 16); E.store(st, A[0] + 8, 8, 0); E.store(st, A[0] + 16, 1, 0)
+        import libc
+        s_set(E, st, A[0], libc.cchars(E, st, A[1])); return None
+    S['_ZNSt7__cxx1112basic_stringIcSt11char_traitsIcESaIcEEC2IS3_EEPKcRKS3_'] = str_from_cstr
+    S['_ZNSt7__cxx1112basic_stringIcSt11char_traitsIcESaIcEEC1IS3_EEPKcRKS3_'] = str_from_cstr
     PFX = '_ZNSt7__cxx1112basic_stringIcSt11char_traitsIcESaIcEE'
     def assign_c(E, st, fr, I, A): s_set(E, st, A[0], cstr(E, st, A[1])); return A[0]
     S[PFX + 'aSEPKc'] = assign_c; S[PFX + '6assignEPKc'] = assign_c
